@@ -144,9 +144,9 @@ theorem runLoop_eq_run {cfg : Cfg} (hR : 0 < cfg.rule) (hH : 0 < cfg.hyd) {n : N
   runLoop_fuel hR hH _ _ _ _ _ hi hn (by unfold runMeasure; omega)
 
 theorem runSim_eq_run {cfg : Cfg} (hR : 0 < cfg.rule) (hH : 0 < cfg.hyd) {simTime prevTime : Int} (vals : Vals)
-    (h : StartOK simTime prevTime) :
+    (h : StartOK simTime prevTime) (hleft : ¬ NothingLeft cfg simTime) :
     runSim cfg simTime prevTime vals = run cfg (simTime == 0) (startState cfg simTime prevTime vals) [] := by
-  rw [runSim_eq]
+  rw [runSim_eq prevTime vals hleft]
   exact runLoop_eq_run hR hH [] (startState_inv hR vals h) (by simp only [runFuel, runMeasure]; omega)
 
 theorem run_unfold {cfg : Cfg} (hR : 0 < cfg.rule) (hH : 0 < cfg.hyd) (first : Bool) {s : St} (log : List Row) (hi : Inv cfg s) :
